@@ -16,4 +16,5 @@ def run(ck):
     factors.r10_composite_bodies(ck, P)
     status.r_fill_word(ck, P, 'C02-R11')
     filt.r7_signed_totals(ck, P, 'C02-R12')
+    filt.r_axis_consistency(ck, P, 'C02-R13')
     codec.r8_scalar_helpers(ck, P)
